@@ -26,7 +26,7 @@
      row.essential name, us[], bs[]
      row.expr      tokens ..., see TraceExpr
    Each failing row prints <<"VERDICT", t, line, {clause}, first failing position>>. *)
-EXTENDS BDDContracts, Json, IOUtils
+EXTENDS Expr, Json, IOUtils
 
 Lines == ndJsonDeserialize(IOEnv.TRACE_FILE)
 VARIABLE l
@@ -170,6 +170,15 @@ RowBad(e) ==    \* position of the first failing element of the row (0 = row acc
            SeqSet(e.sets[i]) = Reach(S, SeqSet(e.rootsets[i]) \cup {1}))
     [] e.op = "row.size" ->
          FirstBad(e.us, LAMBDA i : e.sizes[i] = Cardinality(Reach(S, {e.us[i], 1})))
+    [] e.op = "row.expr" ->         \* one token list, several renderings: all must mean Meaning(Parse(tokens))
+         IF ~ParsedAll(e.tokens) THEN -2
+         ELSE LET F == Meaning(S, Parse(e.tokens).ast) IN
+              FirstBad(e.rs, LAMBDA i : ResultIs(S, e.rs[i], F))
+    [] e.op = "row.toexpr" ->       \* add_expr(to_expr(u)) = u, and the printed text means Den(u)
+         FirstBad(e.us, LAMBDA i :
+           /\ e.rs[i] = e.us[i]
+           /\ ParsedAll(e.texts[i])
+           /\ Meaning(S, Parse(e.texts[i]).ast) = Den(S, e.us[i]))
     [] e.op = "row.graph" ->        \* an exported graph (to_nx / DOT): evaluate it
          FirstBad(e.graphs, LAMBDA i : GraphOK(e.graphs[i]))
     [] OTHER -> -1
@@ -197,6 +206,8 @@ RowClause(e) ==
     [] e.op = "row.descendants" -> "view.descendants"
     [] e.op = "row.size" -> "view.size"
     [] e.op = "row.graph" -> "view." \o e.kind
+    [] e.op = "row.expr" -> "expr.meaning"
+    [] e.op = "row.toexpr" -> "expr.roundtrip"
     [] OTHER -> "trace.unknown_op"
 
 HeldN(s) == {x \in Nodes(s) : s.ext[x] > 0}
@@ -224,7 +235,7 @@ Next == /\ l < NL
                           THEN FirstBad(e.us, LAMBDA i : ~PrimedOperand(e, e.us[i]) \/ PreimageOK(e, i))
                           ELSE 0
                 IN /\ (IF b = 0 THEN TRUE
-                       ELSE IF b = -1 THEN PrintT(<<"VERDICT", Lines[1].t, l + 1, {"trace.unknown_op"}, 0>>)
+                       ELSE IF b < 0 THEN PrintT(<<"VERDICT", Lines[1].t, l + 1, {"trace.unknown_op"}, 0>>)
                        ELSE PrintT(<<"VERDICT", Lines[1].t, l + 1, {RowClause(e)}, b>>))
                    /\ (IF b2 = 0 THEN TRUE
                        ELSE PrintT(<<"VERDICT", Lines[1].t, l + 1, {"rel.preimage.primed_operand"}, b2>>))
